@@ -45,3 +45,121 @@ Proof.
   intros H Hf Hl. unfold handle in H. cbn zeta in H. destruct e;
     unfold api_stop, api_commit, flush_pend, handle_commit_error in H; mi H; split_state_if; lk_facts Hf; lk_solve.
 Qed.
+
+Section Run.
+Variable n0 : Z.     (* the configured request_retry_max_attempts *)
+
+(* what holds of every state between two events of a run that starts in the initial state (fuel permitting) *)
+Definition Reach (s : state) : Prop :=
+  Jtop n0 s /\ s_looper s <> Some false /\ s_inapi s = 0 /\ s_pend s = [].
+
+Lemma reach_init c buf : Reach (init c n0 buf).
+Proof. split; [apply Jtop_init|]. cbn. repeat split; auto. discriminate. Qed.
+
+Lemma fuel_ok_step o1 x : fuel_ok (o1 ++ [OEnd (fst x) (snd x)]) = true -> fuel_ok o1 = true.
+Proof. intro H. apply fuel_ok_app_inv in H. tauto. Qed.
+
+Lemma reach_step fuel s e s' o : Reach s -> step fuel s e = (s', o) -> fuel_ok o = true -> Reach s'.
+Proof.
+  intros (HJ & Hl & Hi & Hp) H Hf.
+  destruct (start_once_every_step _ _ _ _ _ Hi Hp H) as (_ & Hi' & Hp').
+  apply step_inv in H. destruct H as (o1 & H & ->). apply fuel_ok_app_inv in Hf. destruct Hf as (Hf & _).
+  split; [eapply handle_inv; eauto|]. split; [eapply handle_looper; eauto|]. auto.
+Qed.
+
+Definition t_pre (t : tstep) : state := match t with (s, _, _, _) => s end.
+Definition t_post (t : tstep) : state := match t with (_, _, _, s') => s' end.
+Definition t_out (t : tstep) : list output := match t with (_, _, o, _) => o end.
+Definition t_ev (t : tstep) : event := match t with (_, e, _, _) => e end.
+Definition all_fuel_ok (tr : list tstep) : bool := forallb (fun t => fuel_ok (t_out t)) tr.
+
+Theorem reach_run fuel : forall evs s, Reach s -> all_fuel_ok (run_steps fuel s evs) = true ->
+  Forall (fun t => Reach (t_pre t) /\ Reach (t_post t)) (run_steps fuel s evs).
+Proof.
+  induction evs as [|e evs IH]; intros s HR Hf; cbn [run_steps] in *; [constructor|].
+  destruct (step fuel s e) as [s1 o] eqn:E. cbn [all_fuel_ok forallb t_out] in Hf. apply andb_prop in Hf. destruct Hf as (Hf1 & Hf2).
+  pose proof (reach_step _ _ _ _ _ HR E Hf1) as HR1.
+  constructor; [cbn; auto | apply IH; assumption].
+Qed.
+
+(* ---- C13 at run level: stop() on a running consumer always returns, and then everything of stop_step holds ---- *)
+Theorem stop_returns fuel s s' o : Reach s -> step fuel s EStop = (s', o) -> fuel_ok o = true -> s_startd s <> None ->
+  returned o = true.
+Proof.
+  intros ((HJ & Hst) & Hl & Hi & Hp) H Hf Hsd.
+  apply step_inv in H. destruct H as (o1 & H & ->). apply fuel_ok_app_inv in Hf. destruct Hf as (Hf & _).
+  unfold handle in H. cbn zeta in H. unfold api_stop in H. mi H; fuel_split.
+  - unfold returned. repeat rewrite existsb_app. cbn. rewrite !orb_true_r. reflexivity.
+  - exfalso. match goal with E : run _ KStop _ = _, Hf : fuel_ok _ = true |- _ =>
+      destruct (run_inv n0 _ _ _ _ _ _ E Hf HJ Hst) as (_ & _ & Hr) end.
+    assert (Hx : is_some (s_startd s) = true) by (destruct (s_startd s); [reflexivity | congruence]).
+    specialize (Hr Hx). discriminate Hr.
+Qed.
+
+Theorem stop_quiescent_reachable fuel s s' o : Reach s -> step fuel s EStop = (s', o) -> fuel_ok o = true -> s_startd s <> None ->
+  returned o = true /\ quiescent s' = true /\ existsb is_activity o = false /\ s_susp s' = false /\ s_looper s' = None /\
+  s_lp s' = s_lp s /\ s_maxatt s' = n0 /\
+  In (ORet (encv (s_lp s))) o /\ (forall v, In (OStartD true v) o -> v = encv (s_lp s)).
+Proof.
+  intros HR H Hf Hsd. pose proof (stop_returns _ _ _ _ HR H Hf Hsd) as Hr.
+  destruct HR as ((HJ & Hst) & Hl & Hi & Hp).
+  destruct (stop_step _ _ _ _ Hst Hl H Hf Hr) as (Q1 & Q2 & Q3 & Q4 & Q5 & Q6 & Q7 & Q8 & Q9).
+  repeat split; auto.
+  rewrite Q7. pose proof (j11 _ _ HJ) as H11. destruct (s_susp s); [destruct H11; lia | exact H11].
+Qed.
+
+(* ---- C14_backoff_index at run level ---- *)
+Definition BK (c : Z) (o : list output) (s' : state) : Prop :=
+  retry_idxs o = [] /\ s_ridx s' = c \/ retry_idxs o = [c] /\ s_ridx s' = c + 1.
+
+Lemma backoff_of_BK s e o1 s' :
+  BK (if success_reply s e then 0 else s_ridx s) o1 s' -> backoff_step (s, e, o1 ++ [OEnd (s_lp s') (s_lc s')], s') = true.
+Proof.
+  unfold BK, backoff_step. rewrite retry_idxs_app. cbn [retry_idxs]. rewrite app_nil_r.
+  intros [(-> & ->)|(-> & ->)]; cbn [counts_from]; rewrite ?Z.eqb_refl; cbn [counts_from]; rewrite ?Z.eqb_refl; reflexivity.
+Qed.
+
+Lemma do_fetch_bk s r s' o : do_fetch s = (r, s', o) -> retry_idxs o = [] /\ s_ridx s' = s_ridx s.
+Proof. intro H. unfold do_fetch, startd_errback in H. mi H; split; reflexivity. Qed.
+Lemma handle_error_bk (fetch : bool) fk s r s' o :
+  (if fetch then handle_fetch_error fk s else handle_offset_error fk s) = (r, s', o) -> 0 <= s_ridx s -> BK (s_ridx s) o s'.
+Proof.
+  intros H H0. assert (Hz : (0 <=? s_ridx s) = true) by (apply Z.leb_le; exact H0).
+  destruct fetch; [unfold handle_fetch_error in H | unfold handle_offset_error in H];
+    unfold retry_fetch, startd_errback in H; mi H; unfold BK; psimpl; cbn [app retry_idxs T_RETRY Z.eqb Pos.eqb andb];
+    rewrite ?Hz; cbn [andb app]; auto.
+Qed.
+Lemma handle_offset_response_bk kd v s r s' o : handle_offset_response kd v s = (r, s', o) -> retry_idxs o = [] /\ s_ridx s' = 0.
+Proof. intro H. unfold handle_offset_response, do_fetch, startd_errback in H. mi H; split; reflexivity. Qed.
+
+Ltac bk_facts Hf := fuel_split; repeat match goal with
+  | E : run _ ?k ?s1 = (_, ?s2, ?o1), Hf : fuel_ok ?o1 = true |- _ =>
+    let F := fresh "F" in let N := fresh "N" in
+    pose proof (run_frame _ _ _ _ _ _ E Hf) as F; cbn beta iota in F; destruct F as (N & F); unfold no_idx in N;
+    first [ apply fr_ridx in F | apply fk_ridx in F ]; clear E
+  | E : do_fetch _ = _ |- _ => apply do_fetch_bk in E; destruct E
+  | E : handle_offset_response _ _ _ = _ |- _ => apply handle_offset_response_bk in E; destruct E
+  | E : commit _ _ = _ |- _ => let N := fresh "N" in apply commit_fr in E; destruct E as (E & N); unfold no_idx in N; apply fr_ridx in E
+  | E : auto_commit _ _ = _ |- _ => let N := fresh "N" in apply auto_commit_fr in E; destruct E as (E & N); unfold no_idx in N; apply fr_ridx in E
+  | E : send_commit_request _ _ _ = _ |- _ => let N := fresh "N" in apply send_commit_request_fr in E; destruct E as (E & N); unfold no_idx in N; apply fr_ridx in E
+  end.
+Ltac bk_close :=
+  unfold BK; psimpl; repeat rewrite retry_idxs_app;
+  repeat match goal with N : retry_idxs ?x = _ |- _ => rewrite N end;
+  cbn [retry_idxs app T_COMMIT T_LOOPER T_RETRY Z.eqb Pos.eqb andb];
+  first [ left; split; [reflexivity | psimpl; try reflexivity; try congruence; try lia; intuition (try congruence; try lia)]
+        | right; split; [reflexivity | psimpl; try reflexivity; try congruence; try lia; intuition (try congruence; try lia)] ].
+
+Theorem backoff_reachable fuel s e s' o : Reach s -> step fuel s e = (s', o) -> fuel_ok o = true ->
+  backoff_step (s, e, o, s') = true.
+Proof.
+  intros ((HJ & Hst) & Hl & Hi & Hp) H Hf.
+  apply step_inv in H. destruct H as (o1 & H & ->). apply fuel_ok_app_inv in Hf. destruct Hf as (Hf & _).
+  apply backoff_of_BK.
+  assert (Hpk : parked s = true -> s_ridx s = 0) by (intro Hx; destruct (j1 _ _ HJ Hx) as (_ & x & _); exact x).
+  pose proof (j9 _ _ HJ) as (_ & H9).
+  unfold handle in H. cbn zeta in H. unfold success_reply. destruct e.
+  - (* start *) unfold flush_pend in H. mi H; bk_facts Hf; bk_close.
+  - Show.
+Abort.
+End Run.
